@@ -24,3 +24,5 @@ pub assume_specification [ i32::saturating_add ] (a: i32, b: i32) -> (r: i32)
 pub open spec fn i32_clamp(v: i32, lo: i32, hi: i32) -> i32 {
     if v < lo { lo } else if v > hi { hi } else { v }
 }
+pub open spec fn max_spec(a: i32, b: i32) -> i32 { if a >= b { a } else { b } }
+pub open spec fn min_spec(a: i32, b: i32) -> i32 { if a <= b { a } else { b } }
